@@ -116,7 +116,8 @@ def run (kv : KV) : String :=
     "head:" ++ b01 ctx.noBody,
     "upgrade:" ++ b01 ctx.upgrade.isSome,
     "ctor:" ++ get kv "ctor",
-    "declok:" ++ b01 declOk ]
+    "declok:" ++ b01 declOk,
+    "prefail:" ++ (if get kv "prefail" == "1" then "1" else "0") ]
   -- agreement projected on the observables each property talks about
   let mh := model.bind outHeaders
   let aC05 := unmodelled || (match mh, oh with
